@@ -65,8 +65,16 @@ def rule_backref(ctx, repo):
     reset = False
     for lp, e in Q.loops(fn, "$mg", "$m"):
         for lp2, e2 in Q.loops(lp, "$m.services_ref.values()", "$r", e):
-            if Q.has("$r.v = [list() for $_ in range($m.n)]", lp2, e2):
+            st, b = Q.first("$r.v = [list() for $_ in range($m.n)]", lp2, e2)
+            if st is not None:
                 reset = lp
+                conds = Q.condition_chain(lp, st)
+                exits = Q.early_exits(lp) + Q.early_exits(lp2)
+                ctx.check(not conds and not exits, "C19.backref", "System.collect_ref/reset-unconditional",
+                          "every BackRef of every model and group is re-created on every collection",
+                          "the reset `%s` is %s: lists filled by an earlier collection survive and referrers are duplicated" % (
+                              src(st), ("guarded by `%s`" % src(conds[0].test) if conds and hasattr(conds[0], "test") else "conditional")
+                              if conds else "skipped by an early loop exit"), f.W(st))
     fill = [n for n in walk_noscope(fn) if isinstance(n, ast.Call) and dotted(n.func) == "dest.set_backref"]
     ok = reset is not False and len(fill) == 1
     if ok:
@@ -187,7 +195,7 @@ def rule_link_errors(ctx, repo):
 
 def run(ctx):
     ctx.rule("C19.registry", "allocate -> add -> register pairing; duplicate => raise; maps updated together; generated idx never collides", 6)
-    ctx.rule("C19.backref", "BackRef reset-then-fill; once per (referrer, idx-param, name); dangling targets skipped", 5)
+    ctx.rule("C19.backref", "BackRef reset-then-fill (unconditional); once per (referrer, idx-param, name); dangling targets skipped", 6)
     ctx.rule("C19.find-or-add", "find-or-add stages and bookkeeping", 3)
     ctx.rule("C19.link-errors", "error discipline at every link_external call site and inside the link methods", 6)
     ctx.assume("'lookup returns the devices that actually have those values' for arbitrary add sequences is data dependent: declined")
